@@ -11,6 +11,9 @@ pub(crate) fn vk_cache_weight(max: Weight, used: Weight, stats: Arc<ConcurrentSt
     cw.weight_used.vk_set_class(vs::CL_WEIGHT_TOTAL);
     cw
 }
+pub(crate) type WeightStorage = [dashmap::VCell<WeightedKey<u64>>; dashmap::CAP];
+pub(crate) fn vk_weight_storage() -> WeightStorage { [dashmap::VCell::empty(), dashmap::VCell::empty(), dashmap::VCell::empty(), dashmap::VCell::empty()] }
+pub(crate) fn vk_use_weight_storage(c: &CacheWeight<u64>, p: &mut WeightStorage) { c.key_weights.vk_use_value_storage(p as *mut _); }
 pub(crate) fn vk_place(cw: &CacheWeight<u64>, slot: usize, id: KeyId, key: u64, hash: KeyHash, weight: Weight) {
     cw.key_weights.vk_place(slot, id, WeightedKey::new(key, hash, weight));
 }
